@@ -1,0 +1,118 @@
+//go:build verif
+
+// Verification contracts (comments only; compiled only with -tags verif).
+// Checked by /verif/bin/govc; see /verif/DESIGN.md.
+
+package deadline
+
+//@ type Service
+//@   valid self.chainTime != nil && self.monitor != nil && self.relayPubkeys != nil
+//@   guarded_by relayPubkeysMu: relayPubkeys
+//@
+//@ // ---- what a relay's answer says (uninterpreted functions of the bid object; go-builder-client spec/versionedsignedbuilderbid.go) ----
+//@ spec func bidValueOf(b *builderspec.VersionedSignedBuilderBid) int
+//@ spec func bidFeeOf(b *builderspec.VersionedSignedBuilderBid) bellatrix.ExecutionAddress
+//@ spec func bidTsOf(b *builderspec.VersionedSignedBuilderBid) uint64
+//@ spec func bidBuilderOf(b *builderspec.VersionedSignedBuilderBid) phase0.BLSPubKey
+//@ spec func bidHeaderRootOf(b *builderspec.VersionedSignedBuilderBid) phase0.Root
+//@ spec func sigValid() bool
+//@ spec func providerKey() *phase0.BLSPubKey
+//@ spec func startOfSlotNs(slot phase0.Slot) int
+//@
+//@ extern (*github.com/attestantio/go-builder-client/spec.VersionedSignedBuilderBid).Value
+//@   ensures result1 == nil ==> v != nil && result0 != nil && u256(result0) == bidValueOf(v) && bidValueOf(v) >= 0
+//@ extern (*github.com/attestantio/go-builder-client/spec.VersionedSignedBuilderBid).FeeRecipient
+//@   ensures result1 == nil ==> v != nil && result0 == bidFeeOf(v)
+//@ extern (*github.com/attestantio/go-builder-client/spec.VersionedSignedBuilderBid).Timestamp
+//@   ensures result1 == nil ==> v != nil && result0 == bidTsOf(v)
+//@ extern (*github.com/attestantio/go-builder-client/spec.VersionedSignedBuilderBid).Builder
+//@   ensures result1 == nil ==> v != nil && result0 == bidBuilderOf(v)
+//@ extern (*github.com/attestantio/go-builder-client/spec.VersionedSignedBuilderBid).HeaderHashTreeRoot
+//@   ensures result1 == nil ==> v != nil && result0 == bidHeaderRootOf(v)
+//@ extern (*github.com/attestantio/go-builder-client/spec.VersionedSignedBuilderBid).IsEmpty
+//@   ensures v == nil ==> result
+//@
+//@ // ---- eligibility of a bid (C09): value at least the relay's minimum and not zero, non-zero fee recipient, timestamp equal
+//@ // to the slot start, relay signature valid when a relay key is known ----
+//@ spec func eligible(b *builderspec.VersionedSignedBuilderBid, slot phase0.Slot, rc *beaconblockproposer.RelayConfig) bool = bidValueOf(b) != 0 && bidValueOf(b) >= decint(rc.MinValue) && !iszero(bidFeeOf(b)) && bidTsOf(b) == (startOfSlotNs(slot) / 1000000000) % 18446744073709551616 && ((rc.PublicKey == nil && providerKey() == nil) || sigValid())
+//@
+//@ func (*Service).getBidValue
+//@   requires bid != nil
+//@   ensures result1 == nil ==> result0 != nil && u256(result0) == bidValueOf(bid) && bidValueOf(bid) != 0
+//@   modifies nothing
+//@
+//@ func (*Service).verifyBidSignature
+//@   requires relayConfig != nil && bid != nil && provider != nil && unheld(s.relayPubkeysMu)
+//@   assumes call Pubkey (pk): pk == providerKey()
+//@   assumes call Verify (ok): ok == sigValid()
+//@   assumes call BLSSignatureFromBytes#1 (sig, err): err == nil ==> sig != nil
+//@   ensures result1 == nil && result0 ==> ((relayConfig.PublicKey == nil && providerKey() == nil) || sigValid())
+//@   modifies contents(s.relayPubkeys)
+//@
+//@ func (*Service).verifyBidDetails
+//@   requires relayConfig != nil && bid != nil && provider != nil && unheld(s.relayPubkeysMu)
+//@   assumes call StartOfSlot (t): ns(t) == startOfSlotNs(arg0)
+//@   ensures result == nil ==> !iszero(bidFeeOf(bid)) && bidTsOf(bid) == (startOfSlotNs(slot) / 1000000000) % 18446744073709551616 && ((relayConfig.PublicKey == nil && providerKey() == nil) || sigValid())
+//@   modifies contents(s.relayPubkeys)
+//@
+//@ // the first bid of a relay is one whose value was obtained and is not zero (getBidValue), so the percentage is defined
+//@ func (*Service).logBidResults
+//@   requires firstBid != nil ==> bidValueOf(firstBid) != 0
+//@   modifies nothing
+//@
+//@ // ---- one attempt of a relay's goroutine: at most one message, and a message carrying a bid only for an eligible bid ----
+//@ func (*Service).builderBidAttempt
+//@   requires provider != nil && relayConfig != nil && log != nil && !closed(respCh) && !closed(errCh) && unheld(s.relayPubkeysMu)
+//@   requires firstBid != nil ==> bidValueOf(firstBid) != 0
+//@   ensures result0 != nil ==> bidValueOf(result0) != 0
+//@   assumes call BuilderBid#1 (r, err): err == nil ==> r != nil
+//@   chaninv respCh (m): m != nil && m.provider != nil && m.score != nil && (m.bid != nil ==> big(m.score) == bidValueOf(m.bid) && eligible(m.bid, slot, relayConfig))
+//@   chaninv errCh (m): m != nil && m.provider != nil
+//@   ensures sends() <= 1
+//@
+//@ // a relay's goroutine: attempts until the deadline; every message it sends is one of an attempt
+//@ func (*Service).builderBid
+//@   thread
+//@   requires provider != nil && relayConfig != nil && !closed(respCh) && !closed(errCh) && unheld(s.relayPubkeysMu)
+//@   chaninv respCh (m): m != nil && m.provider != nil && m.score != nil && (m.bid != nil ==> big(m.score) == bidValueOf(m.bid) && eligible(m.bid, slot, relayConfig))
+//@   chaninv errCh (m): m != nil && m.provider != nil
+//@   loop 1
+//@     invariant firstBid != nil ==> bidValueOf(firstBid) != 0
+//@
+//@ // adjusted score of a response: (value + offset?) * factor? / 100 with the configuration of the bid's builder
+//@ spec func adjWith(score int, c *blockrelay.BuilderConfig) int = c.Factor != nil ? ((score + (c.Offset != nil ? big(c.Offset) : 0)) * big(c.Factor)) / 100 : score + (c.Offset != nil ? big(c.Offset) : 0)
+//@ spec func adj(resp *builderBidResponse, cfgs map[phase0.BLSPubKey]*blockrelay.BuilderConfig) int = in(cfgs, bidBuilderOf(resp.bid)) ? adjWith(big(resp.score), cfgs[bidBuilderOf(resp.bid)]) : big(resp.score)
+//@ spec func builderKnown() bool
+//@
+//@ func (*Service).setBuilderBid
+//@   requires res != nil && res.Participation != nil && resp != nil && resp.bid != nil && resp.score != nil && resp.provider != nil
+//@   requires res.WinningParticipation != nil ==> res.WinningParticipation.Score != nil && res.WinningParticipation.Bid != nil
+//@   requires forall b phase0.BLSPubKey :: in(builderConfigs, b) ==> builderConfigs[b] != nil
+//@   requires (len(res.Providers) > 0 ==> res.WinningParticipation != nil) && (forall k int :: 0 <= k && k < len(res.Providers) ==> res.Providers[k] != nil)
+//@   ensures (len(res.Providers) > 0 ==> res.WinningParticipation != nil) && (forall k int :: 0 <= k && k < len(res.Providers) ==> res.Providers[k] != nil)
+//@   assumes call Builder#1 (b, err): (err == nil) == builderKnown()
+//@   // C09: the winner is replaced exactly by a non-zero adjusted score that is strictly higher ...
+//@   ensures builderKnown() && adj(resp, builderConfigs) != 0 && (old(res.WinningParticipation) == nil || adj(resp, builderConfigs) > old(big(res.WinningParticipation.Score))) ==> res.WinningParticipation != nil && res.WinningParticipation.Bid == resp.bid && big(res.WinningParticipation.Score) == adj(resp, builderConfigs) && len(res.Providers) == 1 && res.Providers[0] == resp.provider
+//@   // ... and otherwise stays as it was (zero scores, unknown builders and lower or equal scores never win)
+//@   ensures !(builderKnown() && adj(resp, builderConfigs) != 0 && (old(res.WinningParticipation) == nil || adj(resp, builderConfigs) > old(big(res.WinningParticipation.Score)))) ==> res.WinningParticipation == old(res.WinningParticipation)
+//@   // the winning score never decreases, and afterwards is at least this response's adjusted score (if that is non-zero and its builder known)
+//@   ensures old(res.WinningParticipation) != nil ==> res.WinningParticipation != nil && big(res.WinningParticipation.Score) >= old(big(res.WinningParticipation.Score))
+//@   ensures builderKnown() && adj(resp, builderConfigs) != 0 ==> res.WinningParticipation != nil && big(res.WinningParticipation.Score) >= adj(resp, builderConfigs)
+//@   ensures res.WinningParticipation != nil ==> res.WinningParticipation.Score != nil && res.WinningParticipation.Bid != nil
+//@   // relays are added to the unblinding list only for a bid with the winner's header
+//@   ensures res.WinningParticipation == old(res.WinningParticipation) && len(res.Providers) != old(len(res.Providers)) ==> old(res.WinningParticipation) != nil && bidHeaderRootOf(resp.bid) == bidHeaderRootOf(res.WinningParticipation.Bid)
+//@   modifies res.WinningParticipation, res.Providers, contents(res.Participation)
+//@
+//@ func (*Service).BuilderBid
+//@   requires proposerConfig != nil && unheld(s.relayPubkeysMu)
+//@   requires forall k int :: 0 <= k && k < len(proposerConfig.Relays) ==> proposerConfig.Relays[k] != nil
+//@   requires forall b phase0.BLSPubKey :: in(builderConfigs, b) ==> builderConfigs[b] != nil
+//@   assumes call StartOfSlot (t): ns(t) == startOfSlotNs(arg0)
+//@   chaninv respCh (m): m != nil && m.provider != nil && m.score != nil
+//@   chaninv errCh (m): m != nil && m.provider != nil
+//@   loop 2
+//@     invariant res != nil && res.Participation != nil && providerResponses != nil && providerErrors != nil
+//@     invariant (len(res.Providers) > 0 ==> res.WinningParticipation != nil) && (forall k int :: 0 <= k && k < len(res.Providers) ==> res.Providers[k] != nil)
+//@     invariant res.WinningParticipation != nil ==> res.WinningParticipation.Score != nil && res.WinningParticipation.Bid != nil
+//@   // C09: the auction always answers (without an eligible, non-zero bid there is no winner and the local payload is used)
+//@   ensures result1 == nil && result0 != nil
